@@ -1292,6 +1292,12 @@ func (r *runningStep) startStage(container deployer.Plugin) (bool, int64, error)
 			return true, 0, nil
 		}
 	}
+	// The select above picks at random when the run input and the done context are both ready: a step
+	// that was stopped before it received its run input must not be started.
+	if r.ctx.Err() != nil {
+		r.logger.Debugf("step closed before it was started")
+		return true, 0, nil
+	}
 
 	inputSchema, err := r.atpClient.ReadSchema()
 	if err != nil {
